@@ -68,6 +68,10 @@ func Payload(t TrackSpec, u UnitSpec) unit.Payload {
 	switch t.Kind {
 	case KindH264:
 		if u.IDR {
+			if u.Params != 0 {
+				sps, pps := H264Params(u.Params)
+				return unit.PayloadH264{sps, pps, append([]byte{0x65}, body...)}
+			}
 			return unit.PayloadH264{
 				test.FormatH264.SPS,
 				test.FormatH264.PPS,
@@ -77,6 +81,10 @@ func Payload(t TrackSpec, u UnitSpec) unit.Payload {
 		return unit.PayloadH264{append([]byte{0x41}, body...)}
 	case KindAAC:
 		return unit.PayloadMPEG4Audio{body}
+	case KindH265:
+		return payloadH265(u, body)
+	case KindAV1:
+		return payloadAV1(u, body)
 	}
 	panic("unknown track kind " + t.Kind)
 }
@@ -112,6 +120,16 @@ func buildDesc(tracks []TrackSpec) *description.Session {
 					IndexLength:      3,
 					IndexDeltaLength: 3,
 				}},
+			})
+		case KindH265:
+			d.Medias = append(d.Medias, &description.Media{
+				Type:    description.MediaTypeVideo,
+				Formats: []rtspformat.Format{&rtspformat.H265{PayloadTyp: 96}},
+			})
+		case KindAV1:
+			d.Medias = append(d.Medias, &description.Media{
+				Type:    description.MediaTypeVideo,
+				Formats: []rtspformat.Format{&rtspformat.AV1{PayloadTyp: 96}},
 			})
 		default:
 			panic("unknown track kind " + t.Kind)
